@@ -559,6 +559,43 @@ func genPlan(prop, tier string, seed uint64, faults bool) *Plan {
 					g.ctrSt[c.ID] = "removed"
 				}
 			}
+			if prop == "C11" {
+				// ... others change state or appear while it is down: the
+				// plugin sees no event for any of that, only the next list
+				for _, c := range g.ctrsIn("created", "running") {
+					switch {
+					case g.ctrSt[c.ID] == "created" && r.Chance(0.2):
+						op.DownStart = append(op.DownStart, c.ID)
+						g.ctrSt[c.ID] = "running"
+					case r.Chance(0.1):
+						op.DownStop = append(op.DownStop, c.ID)
+						g.ctrSt[c.ID] = "stopped"
+					}
+				}
+				if pods := g.livePods(); len(pods) > 0 && len(g.ctrsIn("created", "running")) < maxLive && r.Chance(0.3) {
+					pod := verifrt.Pick(r, pods)
+					for _, n := range []string{"c0", "c1", "c2"} {
+						used := false
+						for _, o := range g.ctrs {
+							if o.Pod == pod.ID && o.Name == n && (g.ctrSt[o.ID] == "created" || g.ctrSt[o.ID] == "running") {
+								used = true
+							}
+						}
+						if !used {
+							c := g.newCtr(pod)
+							c.Name = n
+							g.ctrs = append(g.ctrs, c)
+							g.ctrSt[c.ID] = "created"
+							op.DownAdd = append(op.DownAdd, c)
+							if r.Chance(0.5) {
+								op.DownStart = append(op.DownStart, c.ID)
+								g.ctrSt[c.ID] = "running"
+							}
+							break
+						}
+					}
+				}
+			}
 		case 10:
 			op.Kind = "sync"
 		case 11:
